@@ -5,7 +5,8 @@ stores is guarded `WHERE timestamp < ?k` (strict, ?k the placeholder assigned to
 timestamp) and binds ?k to the function's timestamp argument; sync status and refs
 additionally require a changed value; routing prune spares the `ignore` node;
 policy upserts write the new value unconditionally or when different (last write
-wins).  Not decided: step-by-step equivalence with an in-memory model."""
+wins); the strict guard is required of every statement that writes the timestamp of one
+of these tables, wherever it is prepared.  Not decided: step-by-step equivalence with an in-memory model."""
 import re
 
 from .. import cfg, rules, sql, flow
